@@ -26,47 +26,50 @@ REQUIRED_THEOREMS = ["bfs_terminates", "parent_children_consistent", "tree_edges
                      "bridge_kruskal_neighbours", "bridge_admissible", "mst_weight_table", "bridge_orientInit", "bridge_orient",
                      "bridge_mst", "bridge_forestStep_edge", "bridge_forestStep_face", "bridge_forestStep_cell", "bridge_forest_edge",
                      "bridge_forest_face", "bridge_forest_cell", "bridge_forest_accessors", "bridge_call", "source_edge_tree_spec",
-                     "forest_traverse_once", "source_face_tree_spec", "source_cell_tree_spec", "source_forest_spec", "source_mst_spec"]
+                     "forest_traverse_once", "source_face_tree_spec", "source_cell_tree_spec", "source_forest_spec", "source_mst_spec",
+                     # round 5: constructors, computed flag, exported polylines, Kruskal on the UnionFind class as translated (C20)
+                     "bridge_computed_flag", "bridge_constructors", "polyline_edge_has_tree_edges", "polyline_face_has_tree_edges",
+                     "kruskalStepUF_bridge", "bridge_kruskal_uf", "bridge_ufCtor", "kruskal_uf_eq"]
 
 _T, _B = "mouette/processing/trees/", "mouette/utils/unionfind.py::UnionFind."
 _VIS = "out-of-scope: debug / visualisation export, not part of the statement"
-_UFM = "modelled"          # Model/UnionFind.lean (the statement-level translation + refinement of unionfind.py is property C20)
+_UFM = "translated"        # Generated/C20UF.lean (property C20's translation) used by Generated kruskalStepUF / ufCtor, bridged by bridge_kruskal_uf
 _UFO = "out-of-scope: not used by the trees (property C20)"
 SOURCE_MAP = {
-    _T + "base.py::SpanningTree.__init__": "modelled",
+    _T + "base.py::SpanningTree.__init__": "translated",
     _T + "base.py::SpanningTree.__call__": "translated",
-    _T + "base.py::SpanningTree.compute": "oracle-only",
+    _T + "base.py::SpanningTree.compute": "translated",
     _T + "base.py::SpanningTree.traverse": "translated",
     _T + "base.py::SpanningTree.traverse.pop": "translated",
-    _T + "base.py::SpanningTree.build_tree_as_polyline": _VIS,
-    _T + "base.py::SpanningForest.__init__": "modelled",
+    _T + "base.py::SpanningTree.build_tree_as_polyline": "out-of-scope: abstract (pass)",
+    _T + "base.py::SpanningForest.__init__": "translated",
     _T + "base.py::SpanningForest.__call__": "translated",
     _T + "base.py::SpanningForest.n_trees": "translated",
     _T + "base.py::SpanningForest.__getitem__": "translated",
     _T + "base.py::SpanningForest.edges": "translated",
     _T + "base.py::SpanningForest.compute": "out-of-scope: abstract (pass)",
     _T + "base.py::SpanningForest.traverse": "translated",
-    _T + "base.py::SpanningForest.build_tree_as_polyline": _VIS,
-    _T + "edge_sp.py::EdgeSpanningTree.__init__": "modelled",
+    _T + "base.py::SpanningForest.build_tree_as_polyline": "out-of-scope: debug export, merge of the polylines of the trees (shape recognised by the translator, not observed)",
+    _T + "edge_sp.py::EdgeSpanningTree.__init__": "translated",
     _T + "edge_sp.py::EdgeSpanningTree._avoid_edge": "translated",
     _T + "edge_sp.py::EdgeSpanningTree.compute": "translated",
     _T + "edge_sp.py::EdgeSpanningTree.compute.put_neighbours_in_queue": "translated",
-    _T + "edge_sp.py::EdgeSpanningTree.build_tree_as_polyline": _VIS,
-    _T + "edge_sp.py::EdgeMinimalSpanningTree.__init__": "oracle-only",
+    _T + "edge_sp.py::EdgeSpanningTree.build_tree_as_polyline": "translated",
+    _T + "edge_sp.py::EdgeMinimalSpanningTree.__init__": "translated",
     _T + "edge_sp.py::EdgeMinimalSpanningTree.compute": "translated",
-    _T + "edge_sp.py::EdgeSpanningForest.__init__": "modelled",
+    _T + "edge_sp.py::EdgeSpanningForest.__init__": "translated",
     _T + "edge_sp.py::EdgeSpanningForest.compute": "translated",
-    _T + "face_sp.py::FaceSpanningTree.__init__": "modelled",
+    _T + "face_sp.py::FaceSpanningTree.__init__": "translated",
     _T + "face_sp.py::FaceSpanningTree.compute": "translated",
     _T + "face_sp.py::FaceSpanningTree.compute.put_neighbours_in_queue": "translated",
-    _T + "face_sp.py::FaceSpanningTree.build_tree_as_polyline": _VIS,
-    _T + "face_sp.py::FaceSpanningForest.__init__": "modelled",
+    _T + "face_sp.py::FaceSpanningTree.build_tree_as_polyline": "translated",
+    _T + "face_sp.py::FaceSpanningForest.__init__": "translated",
     _T + "face_sp.py::FaceSpanningForest.compute": "translated",
-    _T + "cell_sp.py::CellSpanningTree.__init__": "modelled",
+    _T + "cell_sp.py::CellSpanningTree.__init__": "translated",
     _T + "cell_sp.py::CellSpanningTree.compute": "translated",
     _T + "cell_sp.py::CellSpanningTree.compute.put_neighbours_in_queue": "translated",
-    _T + "cell_sp.py::CellSpanningTree.build_tree_as_polyline": _VIS,
-    _T + "cell_sp.py::CellSpanningForest.__init__": "modelled",
+    _T + "cell_sp.py::CellSpanningTree.build_tree_as_polyline": "translated",
+    _T + "cell_sp.py::CellSpanningForest.__init__": "translated",
     _T + "cell_sp.py::CellSpanningForest.compute": "translated",
     _B + "__init__": _UFM, _B + "add": _UFM, _B + "find": _UFM, _B + "connected": _UFM, _B + "union": _UFM, _B + "__contains__": _UFM,
     _B + "__repr__": _UFO, _B + "__len__": _UFO, _B + "__getitem__": _UFO, _B + "__setitem__": _UFO, _B + "component": _UFO,
@@ -78,7 +81,9 @@ TRUSTED = [
     "traverse (+pop), Kruskal loop, neighbour sets, orientation, forest loops and accessors are re-translated from the working tree on "
     "every run (Generated/C10Loop.lean, C10Tree.lean) and proved equal to the model (Props/C10Bridge, C10Source); hand-modelled and tied "
     "by the exact comparison of tables / edge lists / traversal sequences on the cases of this run only: constructors (defaults, random "
-    "root), Python set iteration order of the MST neighbour sets (children compared sorted), UnionFind (model of property C20), "
+    "root drawn by random.randint — patched), Python set iteration order of the MST neighbour sets (children compared sorted); round 5: "
+    "constructors, the _computed flag, build_tree_as_polyline x3 are translated, and the Kruskal loop is also run on the UnionFind class as "
+    "translated from unionfind.py by property C20 (bridge_kruskal_uf); the barycentre coordinates of the exported polylines are not modelled, "
     "the connectivity queries themselves (C01/C03)",
     "the adjacency handed to the model is read from the implementation's connectivity in the code's iteration order "
     "(connectivity itself is C01/C03); the oracle re-derives adjacency, border and components from the raw faces/cells",
@@ -374,6 +379,12 @@ def _run(case):
             out["S2"] = _trav(tree.traverse("DFS"))
             out["P"], out["C"], out["E"] = _canon_tree(tree, n, sort_children=(t == "mst"))     # second read of the tables
             out["first_read"] = list(first)
+            # the exported polyline (build_tree_as_polyline): number of vertices and segments as unordered index pairs
+            try:
+                pl = tree.build_tree_as_polyline()
+                out["poly"] = {"nv": len(pl.vertices), "E": sorted([min(int(a), int(b)), max(int(a), int(b))] for a, b in pl.edges)}
+            except Exception as e:  # noqa
+                out["poly"] = {"err": H.exc_token(e), "msg": str(e)[:80]}
         out["r"] = "ok"
     except Exception as e:  # noqa
         out["r"] = H.exc_token(e); out["msg"] = str(e)[:100]
@@ -615,6 +626,17 @@ def _oracle(case):
     if o["T2"] != o["T"] or o["S2"] != o["S"]:
         out.append({"key": f"C10/{t}/traverse-not-repeatable", "what": "a second traversal of the same tree differs from the first",
                     "detail": f"{o['T'][:80]} vs {o['T2'][:80]}"})
+    pl = o.get("poly")
+    if pl is not None:
+        # export: the polyline has one vertex per vertex (edge trees) / element (face, cell trees) and exactly the parent links
+        # of the tree as segments
+        if "err" in pl:
+            out.append({"key": f"C10/{t}/export/raises/{pl['err']}", "what": f"build_tree_as_polyline() of a computed tree raises {pl['err']}: {pl.get('msg')}", "detail": ""})
+        else:
+            links = sorted([min(c, P[c]), max(c, P[c])] for c in range(n) if P[c] is not None)
+            if pl["E"] != links or pl["nv"] != n:
+                out.append({"key": f"C10/{t}/export/polyline-ne-tree", "what": "the polyline exported by build_tree_as_polyline() does not have one vertex per "
+                            "element and the tree's parent links as segments", "detail": f"nv {pl['nv']} (elements {n}) segments {pl['E'][:6]} links {links[:6]}"})
     if t != "mst":
         hops = H.bfs_hops(n, adm, root)
         _check_tree(t, n, root, P, C, E, T, S, adm, comp, hops, out)
@@ -729,7 +751,12 @@ def search_on_break(rng, broken, mismatches):
 
 def translate():
     from . import c10_translate, c10_tree
-    return c10_translate.translate() + c10_tree.translate()
+    from .. import translate as T
+    from ..gen import c20_translate
+    # the Kruskal loop is also run on the UnionFind class as translated by property C20 (Generated/C20UF.lean, bridged in
+    # Props/C20Source + Props/C10Source: bridge_kruskal_uf): that file must come from the tree THIS run looks at
+    uf = T.site("unionfind.py: UnionFind (translation of property C20, re-run because Generated.C10T.kruskalStepUF / ufCtor use it)", c20_translate.site_unionfind)
+    return c10_translate.translate() + c10_tree.translate() + [uf]
 
 
 MANIFEST = {
